@@ -488,6 +488,11 @@ func (w *Worker) nativeCompile(src string, o CompileOpts, values map[int]string)
 // RunCase explores one case symbolically, cross-checks each path against the
 // native build and confirms violations by native replay.
 func (w *Worker) RunCase(cs *Case, rep *Report) {
+	// development aid: VERIF_ONLY=<substring> runs only the cases whose name
+	// contains it (never set by a registered command)
+	if only := os.Getenv("VERIF_ONLY"); only != "" && !strings.Contains(cs.Name, only) {
+		return
+	}
 	progs := []*Program{cs.Prog}
 	for _, v := range cs.Variants {
 		if v.Prog != nil {
@@ -533,8 +538,12 @@ func (w *Worker) RunCase(cs *Case, rep *Report) {
 			return
 		}
 		if v := cs.Oracle(x); v != nil {
-			w.handleViolation(cs, x, v, rep, srcOf)
-			stopped = true
+			// only a reported counterexample ends the exploration of the case: an
+			// assertion failure without a model (an infeasible or undecided path)
+			// must not hide a real one on a later path
+			if w.handleViolation(cs, x, v, rep, srcOf) {
+				stopped = true
+			}
 		}
 	}
 	done := func(c *interp.Ctx, r interp.PathResult) {
@@ -640,7 +649,7 @@ func (w *Worker) crossCheck(cs *Case, x *OracleCtx, rep *Report, srcOf map[*Prog
 
 // handleViolation: get a model, replay natively with the same oracle, match
 // known findings, report.
-func (w *Worker) handleViolation(cs *Case, x *OracleCtx, v *Violation, rep *Report, srcOf map[*Program]string) {
+func (w *Worker) handleViolation(cs *Case, x *OracleCtx, v *Violation, rep *Report, srcOf map[*Program]string) bool {
 	c := x.C
 	vars := append(cs.Prog.Atoms.Vars(), c.IntVars...)
 	q := v.Query
@@ -648,14 +657,22 @@ func (w *Worker) handleViolation(cs *Case, x *OracleCtx, v *Violation, rep *Repo
 		q = "true"
 	}
 	r, model := c.CheckModel(q, vars)
+	if r == interp.Unknown {
+		// a solver timeout is not an answer: ask once more
+		r, model = c.CheckModel(q, vars)
+	}
 	if r != interp.Sat {
-		rep.inconclusiveViolation(cs, v, "no model for the violation query")
-		return
+		why := "the violation query has no model on this path (the path is infeasible)"
+		if r == interp.Unknown {
+			why = "UNDECIDED: the solver answered unknown to the violation query"
+		}
+		rep.inconclusiveViolation(cs, v, why)
+		return false
 	}
 	values, err := cs.Prog.Atoms.ModelValues(model)
 	if err != nil {
 		rep.inconclusiveViolation(cs, v, err.Error())
-		return
+		return false
 	}
 	// a symbolic layout is realised by inserting blank lines
 	var lineVals []int64
@@ -682,13 +699,12 @@ func (w *Worker) handleViolation(cs *Case, x *OracleCtx, v *Violation, rep *Repo
 	}
 	if !confirmed {
 		rep.unconfirmed(f)
-		return
+		return true
 	}
 	rep.violation(f)
+	return true
 }
 
-// Replay compiles the instantiated case natively and runs the oracle on the
-// native results with concrete atoms.
 func (w *Worker) Replay(cs *Case, values map[int]string, srcOf map[*Program]string) (bool, *Violation, map[string]string, map[string]string) {
 	w.N.Fresh() // a counterexample is confirmed on a process that compiled nothing before
 	var rv *Violation
@@ -1028,6 +1044,16 @@ func (r *Report) Finish(env *Env) int {
 			}
 		}
 	}
+	if exit == 0 {
+		for _, iv := range r.InconViol {
+			if strings.Contains(iv, "UNDECIDED") {
+				// an assertion failed and the solver neither produced nor refuted a
+				// counterexample: that is not a pass
+				fmt.Fprintf(os.Stderr, "CHECK-ERROR: an assertion failed on a path and the solver answered unknown to the counterexample query (nothing is claimed): %s\n", iv)
+				return 3
+			}
+		}
+	}
 	if len(r.EngineMism) > 0 {
 		fmt.Fprintf(os.Stderr, "CHECK-ERROR: %d engine/native mismatches (engine defect, nothing is claimed)\n%s\n", len(r.EngineMism), r.EngineMism[0])
 		return 3
@@ -1098,6 +1124,9 @@ func (r *Report) Finish(env *Env) int {
 	os.WriteFile(filepath.Join(OutDir, "evidence", r.Property+".json"), b, 0o644)
 	fmt.Printf("%s %s: skeletons=%d paths=%d (inconclusive %d, beyond-bound %d) queries=%d solver=%.1fs cross-checked=%d violations=%d known=%d wall=%.1fs\n",
 		r.Property, r.Tier, r.Cases, r.Paths.Paths, r.Paths.Inconclusive, r.Paths.BeyondBound, r.solverQ, r.solverTime.Seconds(), r.CrossOK, len(r.Violations), len(r.KnownHit), wall)
+	for _, iv := range r.InconViol {
+		fmt.Printf("NOTE: an assertion failed on a path but no counterexample could be produced: %s\n", iv)
+	}
 	if r.HistoryDep > 0 {
 		fmt.Printf("NOTE: %d native cross-checks gave a different answer in a used helper process than in a fresh one (compilation depends on earlier compilations in the process: see C17): %s\n", r.HistoryDep, strings.SplitN(r.HistoryDepFirst, "\n", 2)[0])
 	}
